@@ -188,6 +188,9 @@ def body_history(E, o1, a1, o2, a2, o3, a3, base, steps=3):
         crop = cp.Crop(fn=fn, name="t", parent_dir=env.parent, batchsize=per)
         if crop.is_prepared() or crop.num_sown_batches != -1 or crop.num_results != -1:
             return False
+        # nothing on disk: not ready, whether asked of the new object or of one loaded by name only
+        if crop.is_ready_to_reap() or cp.Crop(name="t", parent_dir=env.parent).is_ready_to_reap():
+            return False
         if "Not yet sown" not in str(crop):
             return False
         crop.sow_combos(grid(3), verbosity=0)
@@ -217,21 +220,31 @@ def body_history(E, o1, a1, o2, a2, o3, a3, base, steps=3):
         return True
 
 
-def body_uneven(E, n, nb, f1, f2, f3, base):
+def body_uneven(E, n, nb, f1, f2, f3, base, resow=0):
     """crops sown by num_batches with a remainder (uneven batch sizes): check_bad on healthy results
-    reports nothing and deletes nothing, whichever batches are finished"""
-    n = concretize(n, 3, 5)
+    reports nothing and deletes nothing, whichever batches are finished; sowing the same crop again with the same
+    shape (resow: 1 before, 2 after the batches are grown) leaves the batch files and every query as they were"""
+    n = concretize(n, 3, 7)
     nb = concretize(nb, 2, 3)
+    resow = concretize(resow, 0, 2)
     fn = mkfn(base)
     with E() as env:
         crop = cp.Crop(fn=fn, name="t", parent_dir=env.parent, num_batches=nb)
         crop.sow_combos(grid(n), verbosity=0)
+        bdir = crop_dir(env) + "/batches"
+        sown = env.listdir(bdir)
+        if resow == 1:
+            crop.sow_combos(grid(n), verbosity=0)
         fin = [k + 1 for k, f in enumerate([f1, f2, f3][:nb]) if cbool(f)]
         for i in fin:
             cp.grow(i, crop=crop, verbosity=0)
+        if resow == 2:
+            crop.sow_combos(grid(n), verbosity=0)
         if crop.check_bad() != ():
             return False
         B = crop.num_batches
+        if B != nb or env.listdir(bdir) != sown or len(sown) != nb or crop.num_sown_batches != nb:
+            return False
         return (crop.num_results == len(fin) and crop.missing_results() == tuple(i for i in range(1, B + 1) if i not in fin)
                 and crop.is_ready_to_reap() == (len(fin) == B))
 
@@ -293,6 +306,11 @@ CONDS = (
                  ["3 <= n <= 5 and 2 <= nb <= 3"], timeout=300,
                  bounds="crops of 3-5 settings sown with num_batches 2-3 (uneven batch sizes), every finished subset: "
                         "check_bad on healthy results reports and deletes nothing; progress queries unchanged")]
+    + [make_cond(_G, "resow_uneven", body_uneven, "n:int nb:int f1:bool f2:bool f3:bool base:int resow:int",
+                 ["3 <= n <= 7 and 2 <= nb <= 3 and 1 <= resow <= 2"], timeout=300,
+                 bounds="crops of 3-7 settings sown with num_batches 2-3 (with and without remainder) and sown again "
+                        "with the same shape before / after any subset of batches is grown: the batch files on disk "
+                        "are the same nb files, num_sown_batches == nb, and the progress queries are unchanged")]
     + [make_cond(_G, "dump_fails", body_dump_fails, "B:int i:int f1:bool f2:bool f3:bool fresh:bool base:int",
                  ["1 <= B <= 3 and 1 <= i <= B"], timeout=300,
                  bounds="the real write_to_disk on the step-level file system: B<=3 batches, any other batches "
